@@ -423,7 +423,13 @@ func (ctrler *GovCtrler) applyProposals(height int64) ([]abytes.HexBytes, xerror
 						ctrler.logger.Error("Apply proposal", "error", err, "option", string(prop.MajorOption.Option()))
 						return xerrors.From(err)
 					}
-					ctrlertypes.MergeGovParams(&ctrler.GovParams, newGovParams)
+					// the option is merged with the parameters decided so far:
+					// another proposal may already have been applied in this block.
+					baseGovParams := &ctrler.GovParams
+					if ctrler.newGovParams != nil {
+						baseGovParams = ctrler.newGovParams
+					}
+					ctrlertypes.MergeGovParams(baseGovParams, newGovParams)
 					if xerr := ctrler.paramsLedger.SetFinality(newGovParams); xerr != nil {
 						ctrler.logger.Error("Apply proposal", "error", xerr, "newGovParams", newGovParams)
 						return xerr
